@@ -1272,6 +1272,14 @@ func (p *Program) inlineAt(cs *CallSite, cand *inlineCand, tag string, read func
 								if k < len(x.Results) && !simpleExpr(x.Results[k]) {
 									extraFail = true
 								}
+								// keep a local that is only returned here in use
+								if k < len(x.Results) {
+									if id, isId := unparen(x.Results[k]).(*ast.Ident); isId {
+										if _, isVar := dinfo.Uses[id].(*types.Var); isVar {
+											sb.WriteString("_ = " + strings.ReplaceAll(parts[k], "\n", " ") + "; ")
+										}
+									}
+								}
 								continue
 							}
 							ln = append(ln, nm)
